@@ -16,7 +16,7 @@ var subC17 = newRefSub("c17.accept")
 
 // vocabulary: one spelling per token kind + the contextual identifiers of bind + an invalid literal
 var c17Toks = []string{"var", "def", "eval", "print", "bind", "x", "y", "first", "all", "struct", "slice",
-	"1", "2", `"s"`, "=", "{", "}", "(", ")", "==", "+", "-", "not", "and", "or", ":", "->", ";", "08", `"\q"`, "01", "0x1"}
+	"1", "2", `"s"`, "=", "{", "}", "(", ")", "==", "+", "-", "not", "and", "or", ":", "->", ";", "08", `"\q"`, "01", "0x1", `"%d%s"`}
 
 // c17.nohide: S1 with a syntax error, then S2 (starting with var/def/eval/print) with
 // its own error: S2 must get a diagnostic of its own.
@@ -107,7 +107,7 @@ func init() {
 	fw.Register(&fw.Check{
 		ID:    "C17",
 		Level: "model_checking",
-		Rule: "bounded-exhaustive: (a) every token string of length <=L (quick 4, thorough 5) over a 32-token vocabulary (one spelling per token kind, bind's contextual identifiers, an invalid literal) at toplevel and inside `def a { }`; " +
+		Rule: "bounded-exhaustive: (a) every token string of length <=L (quick 4, thorough 5) over a 33-token vocabulary (one spelling per token kind, bind's contextual identifiers, an invalid literal) at toplevel and inside `def a { }`; " +
 			"(b) grammar sentences (every statement form, 9 expression shapes, bodies, nesting <=2; singles and ordered pairs with and without ';') and every single-token delete / insert / replace / transpose at every position; " +
 			"(c) pairs S1 S2 where S1 is a var/eval/print statement with every one-token fault and S2 starts with var/def/eval/print and has its own fault. Oracle: reference recursive-descent parser accepts <=> Parse accepts <=> log empty; " +
 			"rejection => nil results, >=1 well-formed diagnostic, first diagnostic at the reference's first offending token; (c) a diagnostic located inside S2.",
